@@ -642,10 +642,11 @@ Section Ops.
   End Rec.
 
   (* [fuel] bounds the nesting depth of evaluations (not their number) *)
-  Fixpoint ref_eval (fuel : nat) : option N -> bool -> sexp -> sexp -> res (N * sexp) :=
+  Fixpoint ref_eval (fuel : nat) (lim : option N) (kec : bool) (p e : sexp) {struct fuel}
+    : res (N * sexp) :=
     match fuel with
-    | O => fun _ _ _ _ => Err OutOfFuel
-    | S n => ref_body (ref_eval n)
+    | O => Err OutOfFuel
+    | S n => ref_body (ref_eval n) lim kec p e
     end.
 
   Definition ref_budget (max_cost : N) : N :=
